@@ -77,7 +77,25 @@ func checkC03(c *Case, st *Stats) string {
 		}
 		st.Class("api:Retrieve")
 	} else {
-		f, err := parseWith(c.Path, c.Funcs, c.Accessor, rec)
+		var f func(interface{}) ([]interface{}, error)
+		var err error
+		if c.Funcs && len(c.Path)%3 == 1 {
+			// the caller goes on using its Config after Parse: it withdraws every function (registers
+			// nil under the names) before the parsed function is called. What a path calls was decided
+			// when it was parsed; nothing the Config is told afterwards may make a call fail or panic.
+			cfg := BuildConfig(rec, true, c.Accessor)
+			noteParse(c.Path, true, c.Accessor)
+			f, err = jsonpath.Parse(c.Path, cfg)
+			for _, name := range gen.FilterNames {
+				cfg.SetFilterFunction(name, nil)
+			}
+			for _, name := range gen.AggNames {
+				cfg.SetAggregateFunction(name, nil)
+			}
+			st.Class("config:functions-withdrawn-after-parse")
+		} else {
+			f, err = parseWith(c.Path, c.Funcs, c.Accessor, rec)
+		}
 		if err != nil || f == nil {
 			st.Class("parse:rejected")
 			return ""
